@@ -247,7 +247,7 @@ func (vr *variableResolver) resolve(ctx *ExecutionContext) (*Value, error) {
 
 	// we are resolving an in-template array definition
 	if len(vr.parts) > 0 && vr.parts[0].typ == varTypeArray {
-		items := make([]*Value, 0)
+		items := make([]any, 0)
 		for _, part := range vr.parts {
 			switch v := part.subscript.(type) {
 			case *nodeFilteredVariable:
@@ -256,7 +256,9 @@ func (vr *variableResolver) resolve(ctx *ExecutionContext) (*Value, error) {
 					return nil, err
 				}
 
-				items = append(items, item)
+				// Store the underlying value; a wrapped *Value would hide the
+				// item's kind (and therefore e.g. skip autoescaping of strings).
+				items = append(items, item.Interface())
 			default:
 				return nil, errors.New("unknown variable type is given")
 			}
